@@ -67,6 +67,13 @@ def op_library():
             {"op": "delete", "key": TXT, "noreply": 1}, {"op": "touch", "key": TXT, "expire": 9, "noreply": "yes"}, {"op": "incr", "key": NUM, "delta": 2, "noreply": 2},
             {"op": "delete_many", "keys": [TXT, NUM], "noreply": 1}, {"op": "flush_all", "noreply": "no"}, {"op": "cas", "key": TXT, "value": b"c", "cas": b"2", "noreply": 1},
             {"op": "add", "key": "fresh", "value": b"val", "noreply": 0}, {"op": "replace", "key": TXT, "value": b"val", "noreply": ""}, {"op": "append", "key": TXT, "value": b"x", "noreply": 1.0}]
+    # noreply=None given explicitly (a wrapper that forwards its own optional argument): the operation's documented default -
+    # the client-wide default for stores, delete, touch and flush_all; "wait for the reply" for incr, decr and cas
+    out += [{"op": "incr", "key": NUM, "delta": 2, "noreply": None}, {"op": "decr", "key": NUM, "delta": 1, "noreply": None},
+            {"op": "cas", "key": TXT, "value": b"c", "cas": b"2", "noreply": None}, {"op": "set", "key": TXT, "value": b"val", "noreply": None},
+            {"op": "delete", "key": TXT, "noreply": None}, {"op": "touch", "key": TXT, "expire": 9, "noreply": None},
+            {"op": "delete_many", "keys": [TXT, NUM], "noreply": None}, {"op": "flush_all", "noreply": None},
+            {"op": "set_many", "values": {TXT: b"1", "b": b"2"}, "noreply": None}]
     # raw_command: arbitrary commands, storage commands with their data block included (the block may end in CR LF itself)
     out += [{"op": "raw_command", "command": b"version"}, {"op": "raw_command", "command": "delete t"},
             {"op": "raw_command", "command": b"get t n", "end": b"END\r\n"}, {"op": "raw_command", "command": b"set rk 0 0 3\r\nabc"},
